@@ -53,8 +53,17 @@ def check(tier):
             "compared with the reference model (so with the single-threaded result)")
     rep.assume("the schedule dimension inside one thread count is not enumerated here: the OS schedule is whatever it is; exhaustive interleaving "
                "exploration is done on the relation data structures themselves (C25-C31)")
+    # schedule dimension: generated code under the vsched scheduler with the OpenMP shim (all chunk assignments and access
+    # interleavings up to the preemption bound on small driver programs)
+    from .. import gomp_cases
+    gomp_cases.run_gomp(rep, tier, dl, "C03")
     return rep.finish()
 
 
 def replay(obj):
+    if obj.get("kind") == "vsched":
+        from .. import vs
+        import os
+        exe = os.path.join(VBUILD, "gomp", obj["extra"]["gomp"], "harness")
+        return vs.replay_schedule(exe, obj["scenario"], obj["schedule"], obj["bound"], obj.get("dpoints", 1), obj.get("horizon", 20000), obj.get("conflicts", ()))
     return diff.replay_dl(obj)
